@@ -18,7 +18,7 @@ LEVEL_TEXT = ("Runtime monitoring on recorded executions of the real multi-spher
 LEVEL_NOTE = "Trusted: the documented rule table re-implemented in the checker (max pairwise centre distance <= 30 * largest radius)."
 TECHNIQUE = "runtime monitoring: permutation/rotation metamorphic oracle on recorded solver executions; differential check of theory='auto' against the documented rule table"
 RULE = ("perm: clusters of 2-6 spheres, per-sphere x in [0.5,6], all permutations (n<=4) or 12 sampled; rot: arbitrary angle; "
-        "one: single-sphere clusters; rule: 12 scatterer classes x boundary offsets. non-trivial = field not identically "
+        "one: single-sphere clusters; rule: 12 scatterer classes x boundary offsets x radius number types (float, numpy scalar, 0-d array). non-trivial = field not identically "
         "zero (perm/rot/one) or rule evaluated; distinct by rounded case JSON")
 ASSUMPTIONS = ["per-sphere size parameter <= 6 and cluster extent k*R < 80 keep the solver inside its documented validity range",
                "adda is not installed: the discrete-dipole branch can only be observed up to DependencyMissing"]
